@@ -777,6 +777,7 @@ mod sync {
                             Poll::Ready(t) => Poll::Ready(Some(t)),
                             Poll::Pending  => if CATCH.load(Ordering::SeqCst) {
                                 crate::DEBUG!("[CtrlC::catch] Ready");
+                                #[cfg(ohkami_verif)] crate::__verif__::point("PX");
                                 Poll::Ready(None)
                             } else {
                                 #[cfg(ohkami_verif)] crate::__verif__::point("P2");
@@ -804,6 +805,7 @@ mod sync {
                                     before the waker was published: then the handler found no waker to wake
                                 */
                                 if CATCH.load(Ordering::SeqCst) {
+                                    #[cfg(ohkami_verif)] crate::__verif__::point("PX");
                                     return Poll::Ready(None)
                                 }
                                 Poll::Pending
